@@ -188,4 +188,76 @@ def k0 (delta : α) : ScaleFn α where
     k * (1 + 1) / delta
 
 end
+
+/-- transcendental operations used by the scale functions K1, K2, K3 -/
+class ScaleOps (α : Type) where
+  pi : α
+  sin : α → α
+  asin : α → α
+  log : α → α
+  exp : α → α
+  /-- `f64::is_infinite` (always `false` over a field) -/
+  isInf : α → Bool
+  ofNat : Nat → α
+
+section Scales
+variable {α : Type} [Add α] [Sub α] [Mul α] [Div α] [Neg α] [LT α] [LE α]
+  [DecidableLT α] [DecidableLE α] [OfNat α 0] [OfNat α 1] [ScaleOps α]
+
+/-- `x.min(hi).max(lo)` -/
+def clampTo (x lo hi : α) : α :=
+  let x := if hi < x then hi else x
+  if x < lo then lo else x
+
+def two : α := 1 + 1
+def four : α := two + two
+
+/-- scale function `K1`: `delta / (2π) · asin(2q − 1)` -/
+def k1 (delta : α) : ScaleFn α where
+  f q _ :=
+    let q := clampTo q 0 1
+    delta / (two * ScaleOps.pi) * ScaleOps.asin (two * q - 1)
+  fInv k _ :=
+    let range := delta / four       -- 0.25 * delta
+    let k := clampTo k (-range) range
+    (ScaleOps.sin (k * two * ScaleOps.pi / delta) + 1) / two
+
+/-- `K2::x(n) = delta / (4 ln(n/delta) + 24)`; `K3` uses `+ 21`. -/
+def scaleX (delta c : α) (n : Nat) : α :=
+  delta / (four * ScaleOps.log (ScaleOps.ofNat n / delta) + c)
+
+/-- scale function `K2`: `x(n) · ln(q / (1 − q))` -/
+def k2 (delta c24 : α) : ScaleFn α where
+  f q n :=
+    let q := clampTo q 0 1
+    scaleX delta c24 n * ScaleOps.log (q / (1 - q))
+  fInv k n :=
+    if ScaleOps.isInf k then (if 0 < k then 1 else 0)
+    else
+      let z := ScaleOps.exp (k / scaleX delta c24 n)
+      z / (z + 1)
+
+/-- scale function `K3`: `x(n) · (ln 2q` for `q ≤ 1/2`, `−ln 2(1 − q)` above`)` -/
+def k3 (delta c21 : α) : ScaleFn α where
+  f q n :=
+    let q := clampTo q 0 1
+    let y := if q ≤ half then ScaleOps.log (two * q) else -(ScaleOps.log (two * (1 - q)))
+    scaleX delta c21 n * y
+  fInv k n :=
+    if ScaleOps.isInf k then (if 0 < k then 1 else 0)
+    else
+      let x := scaleX delta c21 n
+      if k ≤ 0 then ScaleOps.exp (k / x) / two else 1 - ScaleOps.exp (-k / x) / two
+
+end Scales
+
+instance : ScaleOps Float where
+  pi := Float.ofBits 0x400921FB54442D18
+  sin := Float.sin
+  asin := Float.asin
+  log := Float.log
+  exp := Float.exp
+  isInf := Float.isInf
+  ofNat := Float.ofNat
+
 end Pds.TDigest
